@@ -14,7 +14,7 @@ from ..ref_circuit import RefCircuit, ScatterError, compare_scatter, impl_scatte
 
 TOL = 1e-9
 
-SUB_NAMES = ["bs2", "u3", "h3mid", "h3io", "h4desc", "h4two", "nest", "lossy", "h2zero", "grp"]
+SUB_NAMES = ["bs2", "u3", "h3mid", "h3io", "h4desc", "h4two", "nest", "lossy", "h2zero", "grp", "h5three"]
 
 
 def make_sub(name, env):
@@ -53,6 +53,10 @@ def make_sub(name, env):
         s, sr = make_sub("bs2", env); c.add(s, 1, group=True); r.add(sr, 1)
         s, sr = make_sub("h3io", env); c.add(s, 0); r.add(sr, 0)
         c.ps(2, env.PH[0]); r.ps(2, env.PH[0])
+    elif name == "h5three":      # three heralds (1, 0, 1 photons), one of them in != out: 3 ancillas at once
+        u = kernel.haar(5, env.seed + 555)
+        c = lw.Unitary(u.copy()); c.herald(1, 1, 1); c.herald(0, 4, 2); c.herald(1, 3, 4)
+        r = RefCircuit(5); r.unitary(0, u); r.herald(1, 1, 1); r.herald(0, 4, 2); r.herald(1, 3, 4)
     else:
         raise KeyError(name)
     return c, r
@@ -217,7 +221,7 @@ def run(tier, seed):
     if tier == "quick":
         plan = [(4, SUB_NAMES, 2, True), (3, SUB_NAMES, 2, False), (5, SUB_NAMES, 2, False)]
     else:
-        core = ["bs2", "h3mid", "h3io", "h4desc", "h4two", "nest", "lossy", "grp"]
+        core = ["bs2", "h3mid", "h3io", "h4desc", "h4two", "nest", "lossy", "h5three"]
         plan = [(4, SUB_NAMES, 2, True), (3, SUB_NAMES, 2, True), (5, SUB_NAMES, 2, True),
                 (4, core, 3, False), (3, core, 3, False)]
     for n, subs, depth, rich in plan:
